@@ -904,4 +904,80 @@ theorem reach_run {s s' : St} (evs : List Ev) (h : Reach s) (hr : run s evs = so
     · rename_i s1 h1; exact ih (Reach.step e h h1) hr
     · simp at hr
 
+/-! ### progress (liveness under fair scheduling) -/
+
+theorem running_everStarted {s : St} (h : Reach s) : s.state = .running → s.everStarted = true := by
+  induction h with
+  | init => intro h; simp at h
+  | step e _ hs ih =>
+    cases e <;> simp only [step] at hs
+    all_goals (repeat' split at hs)
+    all_goals (first | (simp at hs; done) | skip)
+    all_goals (try (simp at hs; subst hs))
+    all_goals (first | exact ih | (intro hh; simp_all) | skip)
+
+theorem drawsOk_zero {h : HSt} (hd : delayOk h) : drawsOk h.delay 0#64 0#64 = true := by
+  rw [drawsOk_iff]
+  obtain ⟨a, _, _⟩ := hd
+  refine ⟨by decide, ?_, by decide, by decide⟩
+  show (0#64).toInt < h.delay.toInt
+  have : (0#64).toInt = 0 := by decide
+  omega
+
+/-- events of handler `j` (peer `p`) that are not service calls and do not change connectedness -/
+def Internal (j p : Nat) : Ev → Bool
+  | .notify q false => q == p
+  | .runStart k _ _ => k == j
+  | .fire k => k == j
+  | .dial k => k == j
+  | .dialEnd k _ _ => k == j
+  | _ => false
+
+theorem progress_dial {s : St} {j : Nat} (hj : j < s.n) (hr : 0 < (s.hs j).rA) (hc : (s.hs j).cancelled = false) :
+    ∃ s', run s [.dial j] = some s' ∧ s'.dials = (j, false) :: s.dials := by
+  simp [run, step, hj, hr, hc]
+
+theorem progress_armed {s : St} {j : Nat} (hj : j < s.n) (ht : (s.hs j).timer = .armed) (hc : (s.hs j).cancelled = false) :
+    ∃ s', run s [.fire j, .dial j] = some s' ∧ s'.dials = (j, false) :: s.dials := by
+  simp [run, step, hj, ht, upd, hc]
+
+theorem c46_progress_aux {s : St} (h : Reach s) (hrun : s.state = .running) (hidle : s.busy = .idle)
+    (j : Nat) (hj : j < s.n) (hlive : (s.hs j).cancelled = false) (hdisc : s.conn (s.hs j).peer = false) :
+    ∃ evs s', evs.length ≤ 4 ∧ (∀ e ∈ evs, Internal j (s.hs j).peer e = true) ∧ run s evs = some s' ∧
+      s'.dials = (j, false) :: s.dials := by
+  have hI := inv_reach h
+  have hd := hI.d j hj
+  have hdr := drawsOk_zero hd
+  by_cases hrA : 0 < (s.hs j).rA
+  · obtain ⟨s', a, b⟩ := progress_dial hj hrA hlive
+    exact ⟨[.dial j], s', by simp, by simp [Internal], a, b⟩
+  cases ht : (s.hs j).timer with
+  | armed =>
+    obtain ⟨s', a, b⟩ := progress_armed hj ht hlive
+    exact ⟨[.fire j, .dial j], s', by simp, by simp [Internal], a, b⟩
+  | idle =>
+    have hrB : 0 < (s.hs j).rB := by have := hI.i1 j hj ht; omega
+    have : ∃ s', run s [.dialEnd j 0#64 0#64, .fire j, .dial j] = some s' ∧ s'.dials = (j, false) :: s.dials := by
+      simp [run, step, hj, hrB, hdr, upd, HSt.dialEnd, HSt.arm, ht, hdisc, hlive]
+    obtain ⟨s', a, b⟩ := this
+    exact ⟨_, s', by simp, by simp [Internal], a, b⟩
+  | none =>
+    have hg := hI.g2 hrun (by simp [hidle, Busy.isStopping]) j hj hlive hdisc ht
+    by_cases hps : 0 < (s.hs j).pendStart
+    · have : ∃ s', run s [.runStart j 0#64 0#64, .fire j, .dial j] = some s' ∧ s'.dials = (j, false) :: s.dials := by
+        simp [run, step, hj, hps, hdr, upd, HSt.runStart, HSt.arm, ht, hdisc, hlive]
+      obtain ⟨s', a, b⟩ := this
+      exact ⟨_, s', by simp, by simp [Internal], a, b⟩
+    · have hpd : 0 < s.pendDisc (s.hs j).peer := by
+        rcases hg with h | h
+        · exact absurd h hps
+        · exact h
+      have hm2 := hI.m2 j hj (hI.live j hj hlive)
+      have hes := running_everStarted h hrun
+      have : ∃ s', run s [.notify (s.hs j).peer false, .runStart j 0#64 0#64, .fire j, .dial j] = some s' ∧
+          s'.dials = (j, false) :: s.dials := by
+        simp [run, step, hidle, hes, hm2, hj, hdr, upd, HSt.runStart, HSt.arm, ht, hdisc, hlive]
+      obtain ⟨s', a, b⟩ := this
+      exact ⟨_, s', by simp, by simp [Internal], a, b⟩
+
 end C46
